@@ -12,7 +12,7 @@ def btc_drivers(ctx):
 
 def elliptic_driver(ctx):
     return vlib.build_driver(ctx, "pkg/slip10/elliptic", ["ellipticpkg/driver_test.go"], name="ellipticpkg",
-                             extra={"pkg/slip10/elliptic/internal/btccurve/zz_verif_export.go": "ellipticpkg/export_shim.go"})
+                             optional_extra={"pkg/slip10/elliptic/internal/btccurve/zz_verif_export.go": "ellipticpkg/export_shim.go"})
 
 
 def slim(e):
@@ -39,7 +39,7 @@ def judge(ctx, bins_events, what, chunk=None):
     bad = vlib.validate_trace(ctx, "ECTrace", allev, chunk=chunk)
     for label, binp, ev in bins_events:
         sel = [b for b in bad if b["in"].get("copy") == label]
-        for e in vlib.reproduce(ctx, binp, sel):
+        for e in vlib.reproduce(ctx, binp, sel, history=allev):
             ctx.bad.append(dict(event=slim(e), reason=what))
 
 
